@@ -68,127 +68,49 @@ impl Check for C18 {
         let mut ft = inp.ftape;
         let cfg = Cfg::draw(&mut ft);
         let fmt = if wt.chance(1, 2) { SerializationFormat::Json } else { SerializationFormat::Yaml };
+        let use_lef = wt.chance(1, 3);
+        if use_lef {
+            let (text, _sw) = crate::gen_lef::gen_lef_text(&mut wt, false);
+            let io = new_io(ft, inp.want_sample);
+            let mut out = RunOut::new();
+            out.probes.hit(&format!("cfg_{}", cfg.name()));
+            out.probes.hit(&format!("fmt_{}", fmt_name(fmt)));
+            let lib = {
+                let fs = SimFs::new(&io);
+                let _g = fs.install();
+                fs.put("/sim/src.lef", text.clone().into_bytes());
+                match guard(|| lef21::LefLibrary::open("/sim/src.lef")) {
+                    Ok(Ok(l)) => l,
+                    _ => {
+                        out.probes.hit("lef_text_not_in_reader_image");
+                        return super::finish(out, &io, &wt, 0, cfg, 0, false);
+                    }
+                }
+            };
+            out.probes.hit("lef_libraries");
+            let sd = fnv64(format!("{} {}", super::c05::describe_lef(&lib), fmt_name(fmt)).as_bytes());
+            let nonempty = !lib.macros.is_empty() || !lib.sites.is_empty() || !lib.vias.is_empty();
+            let art = super::c05::lef_artefact(&lib);
+            let eq = |a: &lef21::LefLibrary, b: &lef21::LefLibrary| if a == b { None } else { Some(first_diff(a, b)) };
+            let (out, extra) = ser_files(&io, out, cfg, fmt, &lib, &eq, &art, "lef", inp.want_sample);
+            return super::finish(out, &io, &wt, sd, cfg, extra, nonempty);
+        }
         let (lib, _sw) = gen_lib(&mut wt, StrProfile::Markup);
         let io = new_io(ft, inp.want_sample);
         let mut out = RunOut::new();
         out.probes.hit(&format!("cfg_{}", cfg.name()));
         out.probes.hit(&format!("fmt_{}", fmt_name(fmt)));
+        out.probes.hit("gds_libraries");
         let sd = fnv64(format!("{} {}", describe(&lib), fmt_name(fmt)).as_bytes());
         let nonempty = !lib.structs.is_empty();
+        let arte = lib_artefact(&lib);
+        let eq = |a: &GdsLibrary, b: &GdsLibrary| gds_equal(a, b);
+        let (mut out, extra) = ser_files(&io, out, cfg, fmt, &lib, &eq, &arte, "gds", inp.want_sample);
         let art = |lib: &GdsLibrary, more: Value| json!({"format": fmt_name(fmt), "library": lib_artefact(lib), "more": more});
         let v = |class: &str, sig: String, detail: String, more: Value| Violation { class: class.into(), sig, detail, artefact: art(&lib, more) };
-
-        // ---- A: in-memory to_string -> from_str
-        let text = match guard(|| fmt.to_string(&lib)) {
-            Err(p) => {
-                out.violation = Some(panic_violation("SerializationFormat::to_string", &p, art(&lib, Value::Null)));
-                return super::finish(out, &io, &wt, sd, cfg, 0, nonempty);
-            }
-            Ok(Err(e)) => {
-                out.violation = Some(v("serialise-error", format!("{}:to_string", fmt_name(fmt)), format!("to_string failed: {}", e), Value::Null));
-                return super::finish(out, &io, &wt, sd, cfg, 1, nonempty);
-            }
-            Ok(Ok(s)) => s,
-        };
-        match guard(|| fmt.from_str::<GdsLibrary>(&text)) {
-            Err(p) => out.violation = Some(panic_violation("SerializationFormat::from_str", &p, art(&lib, json!({"text": truncate(&text, 4000)})))),
-            Ok(Err(e)) => out.violation = Some(v("load-error", format!("{}:from_str", fmt_name(fmt)), format!("from_str fails on to_string output: {}", truncate(&e.to_string(), 300)), json!({"text": truncate(&text, 4000)}))),
-            Ok(Ok(l2)) => {
-                if let Some(d) = gds_equal(&lib, &l2) {
-                    out.violation = Some(v("mismatch", format!("{}:string:{}", fmt_name(fmt), d), format!("to_string->from_str changes the library at {}", d), json!({"text": truncate(&text, 4000)})));
-                }
-            }
-        }
-        if out.violation.is_some() {
-            return super::finish(out, &io, &wt, sd, cfg, 2, nonempty);
-        }
-        if inp.want_sample {
-            out.sample = Some(json!({"configuration": cfg.name(), "format": fmt_name(fmt), "library": lib_artefact(&lib), "markup_len": text.len()}));
-        }
-        // ---- B: files
+        let text_len = fmt.to_string(&lib).map(|s| s.len()).unwrap_or(0);
         let fs = SimFs::new(&io);
         let _g = fs.install();
-        let mut extra = 0u64;
-        let (wpol, rpol, wlabel) = match cfg {
-            Cfg::FaultFree => (Policy::plain(), Policy::plain(), ""),
-            Cfg::Benign => {
-                let cap = bufcap(&mut io.borrow_mut().ftape);
-                layout21utils::verif::set_bufwriter_capacity(cap);
-                extra ^= cap.unwrap_or(0) as u64;
-                let w = benign(&mut io.borrow_mut().ftape);
-                let r = benign(&mut io.borrow_mut().ftape);
-                (w, r, "")
-            }
-            Cfg::Terminal => {
-                let cap = bufcap(&mut io.borrow_mut().ftape);
-                layout21utils::verif::set_bufwriter_capacity(cap);
-                extra ^= cap.unwrap_or(0) as u64;
-                // the terminal fault sits either on the save side or on the open side
-                if io.borrow_mut().ftape.chance(1, 2) {
-                    let (w, l) = terminal_write(&mut io.borrow_mut().ftape, text.len() as u64);
-                    (w, Policy::plain(), l)
-                } else {
-                    let r = terminal_read(&mut io.borrow_mut().ftape, text.len() as u64);
-                    (Policy::plain(), r, "")
-                }
-            }
-        };
-        extra ^= policy_digest(&wpol) ^ policy_digest(&rpol).rotate_left(11);
-        let create_err = cfg == Cfg::Terminal && io.borrow_mut().ftape.chance(1, 12);
-        fs.plan(L_MK, FilePlan { write: wpol.clone(), read: Policy::plain(), create_err: if create_err { Some(std::io::ErrorKind::PermissionDenied) } else { None }, ..Default::default() });
-        let before = io.borrow().errors_returned.len();
-        let saved = match guard(|| fmt.save(&lib, L_MK)) {
-            Err(p) => {
-                out.violation = Some(panic_violation("SerializationFormat::save", &p, art(&lib, Value::Null)));
-                false
-            }
-            Ok(Err(e)) => {
-                if cfg == Cfg::Terminal && io.borrow().errors_returned.len() > before {
-                    out.probes.hit("save_terminal_err_reported");
-                } else {
-                    out.violation = Some(v("not-transparent", format!("{}:save/{}/result", fmt_name(fmt), cfg.name()), format!("save fails without a terminal fault: {}", e), Value::Null));
-                }
-                false
-            }
-            Ok(Ok(())) => true,
-        };
-        if saved {
-            let fired = io.borrow().errors_returned.len() > before;
-            if fired {
-                out.probes.hit("save_error_swallowed_call_returned_ok");
-            }
-            // ack => durable: the stored file must load back equal (read side fault-free here)
-            match guard(|| fmt.open::<GdsLibrary>(L_MK)) {
-                Err(p) => out.violation = Some(panic_violation("SerializationFormat::open", &p, art(&lib, Value::Null))),
-                Ok(Err(e)) => out.violation = Some(v(if fired { "ack-not-durable" } else { "load-error" }, format!("{}:save-open/{}", fmt_name(fmt), if fired { wlabel } else { "open" }), format!("save returned Ok but the stored file does not load (disk reported an error: {}): {}", fired, truncate(&e.to_string(), 300)), json!({"stored_len": fs.get(L_MK).map(|b| b.len()), "text_len": text.len()}))),
-                Ok(Ok(l2)) => {
-                    if let Some(d) = gds_equal(&lib, &l2) {
-                        out.violation = Some(v(if fired { "ack-not-durable" } else { "mismatch" }, format!("{}:file:{}", fmt_name(fmt), d), format!("save->open changes the library at {}", d), Value::Null));
-                    }
-                }
-            }
-            // read side under the configuration's schedule
-            if out.violation.is_none() && cfg != Cfg::FaultFree {
-                fs.plan(L_MK, FilePlan { read: rpol.clone(), ..Default::default() });
-                let before = io.borrow().errors_returned.len();
-                match guard(|| fmt.open::<GdsLibrary>(L_MK)) {
-                    Err(p) => out.violation = Some(panic_violation("SerializationFormat::open(scheduled)", &p, art(&lib, Value::Null))),
-                    Ok(Err(e)) => {
-                        let fired = io.borrow().errors_returned.len() > before;
-                        if cfg == Cfg::Terminal && fired {
-                            out.probes.hit("open_terminal_err_reported");
-                        } else {
-                            out.violation = Some(v("not-transparent", format!("{}:open/{}/result", fmt_name(fmt), cfg.name()), format!("open fails under schedule {:?}: {}", rpol, truncate(&e.to_string(), 300)), Value::Null));
-                        }
-                    }
-                    Ok(Ok(l2)) => {
-                        if let Some(d) = gds_equal(&lib, &l2) {
-                            out.violation = Some(v("wrong-data", format!("{}:open/{}:{}", fmt_name(fmt), cfg.name(), d), format!("open under schedule {:?} returns a different library at {}", rpol, d), Value::Null));
-                        }
-                    }
-                }
-            }
-        }
         // ---- C: the two-tool pipeline gds -> markup -> gds (fault-free and benign only; terminal faults per stage)
         if out.violation.is_none() {
             let mut bytes0 = Vec::new();
@@ -211,7 +133,7 @@ impl Check for C18 {
                     }
                 };
                 fs.plan(A_GDS, FilePlan { read: mk(&io, 1, bytes0.len() as u64, false), ..Default::default() });
-                fs.plan(A_MK, FilePlan { write: mk(&io, 2, text.len() as u64, true), read: stage_pol(&io), ..Default::default() });
+                fs.plan(A_MK, FilePlan { write: mk(&io, 2, text_len as u64, true), read: stage_pol(&io), ..Default::default() });
                 fs.plan(B_GDS, FilePlan { write: mk(&io, 3, bytes0.len() as u64, true), ..Default::default() });
                 let before = io.borrow().errors_returned.len();
                 let o1 = ToMarkupOptions { gds: A_GDS.into(), fmt: fmt_name(fmt).into(), out: A_MK.into(), verbose: false };
@@ -261,11 +183,126 @@ impl Check for C18 {
                 }
             }
         }
-        if inp.want_sample {
-            if let Some(s) = out.sample.as_mut() {
-                s["event_log"] = json!(io.borrow().trace.clone().unwrap_or_default().into_iter().take(30).collect::<Vec<_>>());
-            }
-        }
         super::finish(out, &io, &wt, sd, cfg, extra, nonempty)
     }
+}
+
+/// to_string->from_str and save->open (fault-free / benign / terminal) for any serialisable library type
+#[allow(clippy::too_many_arguments)]
+fn ser_files<T: serde::Serialize + serde::de::DeserializeOwned>(io: &Io, mut out: RunOut, cfg: Cfg, fmt: SerializationFormat, lib: &T, eq: &dyn Fn(&T, &T) -> Option<String>, arte: &Value, kind: &str, want_sample: bool) -> (RunOut, u64) {
+    let art = |more: Value| json!({"format": fmt_name(fmt), "kind": kind, "library": arte.clone(), "more": more});
+    let fk = format!("{}:{}", fmt_name(fmt), kind);
+    let v = |class: &str, sig: String, detail: String, more: Value| Violation { class: class.into(), sig, detail, artefact: art(more) };
+        // ---- A: in-memory to_string -> from_str
+        let text = match guard(|| fmt.to_string(lib)) {
+            Err(p) => {
+                out.violation = Some(panic_violation("SerializationFormat::to_string", &p, art(Value::Null)));
+                return (out, 0);
+            }
+            Ok(Err(e)) => {
+                out.violation = Some(v("serialise-error", format!("{}:to_string", fk), format!("to_string failed: {}", e), Value::Null));
+                return (out, 1);
+            }
+            Ok(Ok(s)) => s,
+        };
+        match guard(|| fmt.from_str::<T>(&text)) {
+            Err(p) => out.violation = Some(panic_violation("SerializationFormat::from_str", &p, art(json!({"text": truncate(&text, 4000)})))),
+            Ok(Err(e)) => out.violation = Some(v("load-error", format!("{}:from_str", fk), format!("from_str fails on to_string output: {}", truncate(&e.to_string(), 300)), json!({"text": truncate(&text, 4000)}))),
+            Ok(Ok(l2)) => {
+                if let Some(d) = eq(lib, &l2) {
+                    out.violation = Some(v("mismatch", format!("{}:string:{}", fk, d), format!("to_string->from_str changes the library at {}", d), json!({"text": truncate(&text, 4000)})));
+                }
+            }
+        }
+        if out.violation.is_some() {
+            return (out, 2);
+        }
+        if want_sample {
+            out.sample = Some(json!({"configuration": cfg.name(), "format": fmt_name(fmt), "library": arte.clone(), "markup_len": text.len()}));
+        }
+        // ---- B: files
+        let fs = SimFs::new(&io);
+        let _g = fs.install();
+        let mut extra = 0u64;
+        let (wpol, rpol, wlabel) = match cfg {
+            Cfg::FaultFree => (Policy::plain(), Policy::plain(), ""),
+            Cfg::Benign => {
+                let cap = bufcap(&mut io.borrow_mut().ftape);
+                layout21utils::verif::set_bufwriter_capacity(cap);
+                extra ^= cap.unwrap_or(0) as u64;
+                let w = benign(&mut io.borrow_mut().ftape);
+                let r = benign(&mut io.borrow_mut().ftape);
+                (w, r, "")
+            }
+            Cfg::Terminal => {
+                let cap = bufcap(&mut io.borrow_mut().ftape);
+                layout21utils::verif::set_bufwriter_capacity(cap);
+                extra ^= cap.unwrap_or(0) as u64;
+                // the terminal fault sits either on the save side or on the open side
+                if io.borrow_mut().ftape.chance(1, 2) {
+                    let (w, l) = terminal_write(&mut io.borrow_mut().ftape, text.len() as u64);
+                    (w, Policy::plain(), l)
+                } else {
+                    let r = terminal_read(&mut io.borrow_mut().ftape, text.len() as u64);
+                    (Policy::plain(), r, "")
+                }
+            }
+        };
+        extra ^= policy_digest(&wpol) ^ policy_digest(&rpol).rotate_left(11);
+        let create_err = cfg == Cfg::Terminal && io.borrow_mut().ftape.chance(1, 12);
+        fs.plan(L_MK, FilePlan { write: wpol.clone(), read: Policy::plain(), create_err: if create_err { Some(std::io::ErrorKind::PermissionDenied) } else { None }, ..Default::default() });
+        let before = io.borrow().errors_returned.len();
+        let saved = match guard(|| fmt.save(lib, L_MK)) {
+            Err(p) => {
+                out.violation = Some(panic_violation("SerializationFormat::save", &p, art(Value::Null)));
+                false
+            }
+            Ok(Err(e)) => {
+                if cfg == Cfg::Terminal && io.borrow().errors_returned.len() > before {
+                    out.probes.hit("save_terminal_err_reported");
+                } else {
+                    out.violation = Some(v("not-transparent", format!("{}:save/{}/result", fk, cfg.name()), format!("save fails without a terminal fault: {}", e), Value::Null));
+                }
+                false
+            }
+            Ok(Ok(())) => true,
+        };
+        if saved {
+            let fired = io.borrow().errors_returned.len() > before;
+            if fired {
+                out.probes.hit("save_error_swallowed_call_returned_ok");
+            }
+            // ack => durable: the stored file must load back equal (read side fault-free here)
+            match guard(|| fmt.open::<T>(L_MK)) {
+                Err(p) => out.violation = Some(panic_violation("SerializationFormat::open", &p, art(Value::Null))),
+                Ok(Err(e)) => out.violation = Some(v(if fired { "ack-not-durable" } else { "load-error" }, format!("{}:save-open/{}", fk, if fired { wlabel } else { "open" }), format!("save returned Ok but the stored file does not load (disk reported an error: {}): {}", fired, truncate(&e.to_string(), 300)), json!({"stored_len": fs.get(L_MK).map(|b| b.len()), "text_len": text.len()}))),
+                Ok(Ok(l2)) => {
+                    if let Some(d) = eq(lib, &l2) {
+                        out.violation = Some(v(if fired { "ack-not-durable" } else { "mismatch" }, format!("{}:file:{}", fk, d), format!("save->open changes the library at {}", d), Value::Null));
+                    }
+                }
+            }
+            // read side under the configuration's schedule
+            if out.violation.is_none() && cfg != Cfg::FaultFree {
+                fs.plan(L_MK, FilePlan { read: rpol.clone(), ..Default::default() });
+                let before = io.borrow().errors_returned.len();
+                match guard(|| fmt.open::<T>(L_MK)) {
+                    Err(p) => out.violation = Some(panic_violation("SerializationFormat::open(scheduled)", &p, art(Value::Null))),
+                    Ok(Err(e)) => {
+                        let fired = io.borrow().errors_returned.len() > before;
+                        if cfg == Cfg::Terminal && fired {
+                            out.probes.hit("open_terminal_err_reported");
+                        } else {
+                            out.violation = Some(v("not-transparent", format!("{}:open/{}/result", fk, cfg.name()), format!("open fails under schedule {:?}: {}", rpol, truncate(&e.to_string(), 300)), Value::Null));
+                        }
+                    }
+                    Ok(Ok(l2)) => {
+                        if let Some(d) = eq(lib, &l2) {
+                            out.violation = Some(v("wrong-data", format!("{}:open/{}:{}", fk, cfg.name(), d), format!("open under schedule {:?} returns a different library at {}", rpol, d), Value::Null));
+                        }
+                    }
+                }
+            }
+        }
+    (out, extra)
 }
